@@ -327,3 +327,12 @@ package annotations
 //@   assume-pre Mapper).Get
 //@   lemma days: d.acmeData.Expiring == old(d.acmeData.Expiring) || exists n int :: d.acmeData.Expiring == n * 24 * 3600000000000
 //@ end
+
+// C07 — the http backend of an ssl-passthrough host is named only after it was
+// looked up in the model (and found): the host map never points at a backend
+// that does not exist
+//@ func (*updater).buildHostSSLPassthrough
+//@   props C07
+//@   assume-pre Mapper).Get
+//@   store HTTPPassthroughBackend after FindBackend
+//@ end
